@@ -966,6 +966,23 @@ async fn updater_batch(zone: &Zone, mdl: &Mdl, who: &str, names: &[String]) {
         if abort_at == Some(i) {
             break;
         }
+        // A sloppy (or hostile) primary: a record that does not belong to
+        // the zone - owned by an ancestor of the apex, a sibling, a name the
+        // apex is only the front part of - sits between the good ones. It is
+        // refused, changes nothing, and the update goes on.
+        if sim::chance("up.out_of_zone_record", 1, 12) {
+            let owner = sim::pick("up.out_of_zone_owner", &[".".to_string(), format!("x{}", APEX), format!("{}other.", APEX), "other.".to_string()]).clone();
+            let (rtype, rdata) = sim::pick("up.out_of_zone_what", &[(Rtype::NS, "ns.elsewhere.".to_string()), (Rtype::A, "192.0.2.250".to_string()), (Rtype::SOA, soa_rdata(serial + 1000))]).clone();
+            let r = RecSpec { owner, rtype, ttl: 3600, rdata };
+            let del = sim::chance("up.out_of_zone_delete", 1, 3);
+            ev!("{} {} {} (not of this zone)", who, if del { "DeleteRecord" } else { "AddRecord" }, r.line());
+            sim::stat("fault.update_offers_a_record_outside_the_zone");
+            let res = if del { up.apply(ZoneUpdate::DeleteRecord(r.record())).await } else { up.apply(ZoneUpdate::AddRecord(r.record())).await };
+            if res.is_ok() {
+                sim::violation(P9, "scope", "record-outside-the-zone-taken".to_string(), format!("{} of {} was accepted by the updater of zone {}", if del { "DeleteRecord" } else { "AddRecord" }, r.line(), APEX));
+                return;
+            }
+        }
         match sim::draw("up.op", 10) {
             0..=3 => {
                 let r = gen_plain_rec(names);
